@@ -219,5 +219,5 @@ def check_exit(ex: Exec, C: FnContract, env0, outcome, result: V, exc, res: FnRe
         if v0 is None or v0.term is v1.term or (z3.is_expr(v0.term) and z3.is_expr(v1.term) and v0.term.eq(v1.term)):
             continue
         ex.oblige('frame@exit', 'ctx:' + key, ex.eq(v0, v1), ('frame',))
-    if ex.ch.fresh_part and (len(res.canaries) < 3 or (len(res.canaries) < 6 and not any(c.name.endswith(outcome) for c in res.canaries))):
+    if ex.ch.fresh_part and (len(res.canaries) < 3 or (len(res.canaries) < 12 and (res.completed % 7 == 0 or not any(c.name.endswith(outcome) for c in res.canaries)))):
         res.canaries.append(Obligation('%s/canary:%s' % (C.key, outcome), st.pc, z3.BoolVal(False), ('canary',), {'trace': list(st.trace)}))
